@@ -304,7 +304,14 @@ def r02_4(prog, rep, m, F, fn):
     t = [x for x in _binops(r.node, ast.BitAnd) if isinstance(x.left, ast.BinOp) and isinstance(x.left.op, ast.RShift)]
     r_type_shift = F.try_fold(t[0].left.right) if t else None
     r_type_mask = F.try_fold(t[0].right) if t else None
-    lows = [F.try_fold(x.right) for x in _binops(r.node, ast.BitAnd) if norm(x.left).endswith("[0]")]
+    # names that are plain aliases of the first header byte (`first = raw[0]`)
+    first_alias = {s_.targets[0].id for s_ in ast.walk(r.node) if isinstance(s_, ast.Assign) and isinstance(s_.targets[0], ast.Name)
+                   and isinstance(s_.value, ast.Subscript) and norm(s_.value).endswith("[0]")}
+    is_first = lambda e_: norm(e_).endswith("[0]") or (isinstance(e_, ast.Name) and e_.id in first_alias)
+    t = [x for x in _binops(r.node, ast.BitAnd) if isinstance(x.left, ast.BinOp) and isinstance(x.left.op, ast.RShift) and is_first(x.left.left)] or t
+    r_type_shift = F.try_fold(t[0].left.right) if t else None
+    r_type_mask = F.try_fold(t[0].right) if t else None
+    lows = [F.try_fold(x.right) for x in _binops(r.node, ast.BitAnd) if is_first(x.left)]
     grp = [x for x in _binops(r.node, ast.LShift) if isinstance(x.left, ast.BinOp) and isinstance(x.left.op, ast.BitAnd)]
     g_mask = F.try_fold(grp[0].left.right) if grp else None
     # shift expression must be linear i*7 + 4
@@ -355,8 +362,19 @@ def r02_4(prog, rep, m, F, fn):
                              "add" if isinstance(s.op, ast.Add) and "& 127" in norm(s.value).replace("0x7F", "127").replace("0x7f", "127") else "?")
         order_ok = kinds == ["bias", "shift", "add"]
     dmask = sorted(F.try_fold(x.right) for x in _binops(d.node, ast.BitAnd))
+    # the per-byte update, composed into one expression whatever way it is spelled: ((acc + 1) << 7) + (b & 0x7F)
+    from sa.common import compose_update, expr_key
+    upd_ok, upd_txt = False, "no loop"
+    for lp in [x for x in ast.walk(d.node) if isinstance(x, ast.For) and isinstance(x.target, ast.Name)]:
+        accs = {s_.target.id for s_ in lp.body if isinstance(s_, ast.AugAssign) and isinstance(s_.target, ast.Name)} | \
+               {s_.targets[0].id for s_ in lp.body if isinstance(s_, ast.Assign) and isinstance(s_.targets[0], ast.Name)}
+        for acc in accs:
+            e_ = compose_update(lp.body, acc)
+            upd_txt = expr_key(e_, F)
+            want = f"Add(BitAnd(127,{lp.target.id}),LShift(Add(1,{acc}),7))"
+            upd_ok = upd_ok or upd_txt == want
     rep.ob("R02.4", PACK, d.qual, "offset decoder: acc = b0 & 0x7F; per byte: acc += 1; acc <<= 7; acc += b & 0x7F (git's offset varint)",
-           acc_shift and bias and order_ok and dmask == [127, 127, 128], f"shift7 {acc_shift} bias {bias} order {order_ok} masks {dmask}", d.node.lineno)
+           upd_ok and dmask == [127, 127, 128], f"per-byte update composes to {upd_txt}; masks {dmask}", d.node.lineno)
     zero = any(isinstance(x, ast.If) and norm(x.test) in ("delta_base_offset == 0", "not delta_base_offset", "delta_base_offset <= 0")
                and any(isinstance(y, ast.Raise) for y in x.body) for x in ast.walk(d.node))
     rep.ob("R02.4", PACK, d.qual, "an OFS_DELTA whose offset is 0 (its own base) is refused", zero, "", d.node.lineno)
@@ -367,21 +385,40 @@ def r02_4(prog, rep, m, F, fn):
         b = ofs[0]
         e_first = any(isinstance(x, ast.Assign) and isinstance(x.value, ast.List) and len(x.value.elts) == 1 and "& 127" in norm(x.value.elts[0]).replace("0x7F", "127") for x in b.body)
         wl = [x for x in b.body if isinstance(x, ast.While)]
-        seq = []
-        if wl:
-            for s in wl[0].body:
-                if isinstance(s, ast.AugAssign) and isinstance(s.op, ast.Sub) and F.try_fold(s.value) == 1:
-                    seq.append("bias")
-                elif isinstance(s, ast.AugAssign) and isinstance(s.op, ast.RShift) and F.try_fold(s.value) == 7:
-                    seq.append("shift")
-                elif isinstance(s, ast.Expr) and isinstance(s.value, ast.Call) and callee_name(s.value) == "insert" and F.try_fold(s.value.args[0]) == 0:
-                    a = norm(s.value.args[1]).replace("0x7F", "127").replace("0x80", "128")
-                    seq.append("prepend" if "128 |" in a and "& 127" in a else "prepend?")
-                else:
-                    seq.append("?")
+        from sa.common import compose_update, expr_key
+        emit_ok = upd_ok = order_ok = False
+        emit_txt = upd_txt = "?"
+        if wl and isinstance(wl[0].test, ast.Name):
+            var = wl[0].test.id
+            body = wl[0].body
+            # the statement that emits a group: <list>.insert(0, X) (prepend) or <list>.append(X) (then reversed when used)
+            for k, s_ in enumerate(body):
+                if isinstance(s_, ast.Expr) and isinstance(s_.value, ast.Call) and isinstance(s_.value.func, ast.Attribute) and s_.value.func.attr in ("insert", "append"):
+                    c_ = s_.value
+                    lst = norm(c_.func.value)
+                    if c_.func.attr == "insert":
+                        x_ = c_.args[1] if len(c_.args) == 2 and F.try_fold(c_.args[0]) == 0 else None
+                        order_ok = x_ is not None
+                    else:
+                        x_ = c_.args[0] if c_.args else None
+                        order_ok = any(isinstance(y, ast.Call) and callee_name(y) == "reversed" and y.args and norm(y.args[0]) == lst for y in ast.walk(b)) or \
+                            any(isinstance(y, ast.Subscript) and norm(y.value) == lst and norm(y.slice).replace(" ", "") == "::-1" for y in ast.walk(b))
+                    if x_ is None:
+                        continue
+                    # value of the variable at the time of the emission = composition of the statements before it
+                    at = compose_update(body[:k], var)
+                    import copy as _copy
+
+                    class _S(ast.NodeTransformer):
+                        def visit_Name(self, node):
+                            return _copy.deepcopy(at) if (at is not None and node.id == var and isinstance(node.ctx, ast.Load)) else node
+                    emit_txt = expr_key(_S().visit(_copy.deepcopy(x_)), F)
+                    emit_ok = emit_txt == f"BitOr(128,BitAnd(127,Sub({var},1)))"
+            upd_txt = expr_key(compose_update(body, var), F)
+            upd_ok = upd_txt == f"RShift(Sub({var},1),7)"
         pre_shift = any(isinstance(x, ast.AugAssign) and isinstance(x.op, ast.RShift) and F.try_fold(x.value) == 7 for x in b.body)
-        ok = e_first and seq == ["bias", "prepend", "shift"] and pre_shift and bool(wl) and norm(wl[0].test) == "delta_base"
-        det = f"first group {e_first}, loop {seq}, initial shift {pre_shift}"
+        ok = e_first and emit_ok and upd_ok and order_ok and pre_shift and bool(wl)
+        det = f"first group {e_first}, emitted group {emit_txt}, loop update {upd_txt}, most significant group first {order_ok}, initial shift {pre_shift}"
     rep.ob("R02.4", PACK, w.qual, "offset encoder: low 7 bits last; while rest: rest -= 1; prepend 0x80 | rest & 0x7F; rest >>= 7 (inverse of the decoder)", ok, det, w.node.lineno)
 
 
